@@ -17,7 +17,8 @@ def Holds (held : Held) (d ns e : Key) (it : Nat) : Prop :=
   ∃ doc, lookup d held = some doc ∧ ∃ items, lookup ns doc.namespaces = some items ∧ lookup e items = some it
 
 /-- executable soundness check on a real `PreparedDeviceResponse` / decoded `DeviceResponse`:
-every disclosed (d, ns, e, item) is requested, permitted and the held item; every reported
+every returned document has a requested and permitted document type; every disclosed
+(d, ns, e, item) is requested, permitted and the held item; every reported
 element error is requested, permitted; every document error is requested and permitted.
 `out`: docType → namespace → disclosed (identifier, item); `errs`: docType → namespace → identifiers -/
 def soundOk (held : Held) (req : Request) (perm : Permitted)
@@ -31,6 +32,9 @@ def soundOk (held : Held) (req : Request) (perm : Permitted)
       | some items => lookup e items == some it
       | none => false
     | none => false
+  -- no unrequested (or unpermitted) document type appears, not even with nothing disclosed in it
+  -- (`C02_nothing_else`, first part)
+  out.all (fun (d, _) => req.any (fun (d', _) => d' == d) && perm.any (fun (d', _) => d' == d)) &&
   out.all (fun (d, nss) => nss.all fun (ns, items) => items.all fun (e, it) =>
     requested d ns e && permitted d ns e && holds d ns e it) &&
   errs.all (fun (d, nss) => nss.all fun (ns, es) => es.all fun e => requested d ns e && permitted d ns e) &&
